@@ -144,11 +144,20 @@ func runC03(c *Ctx) {
 	c03Keys(c)
 	c03Rebuild(c)
 	c03Identities(c)
+	if !c03Core(c) {
+		return
+	}
+	c03Plumbing(c)
+}
+
+// c03Core: R1-R4, the soundness rules of the fact map and the folder (also evaluated under C15-R9: the JIT's tiers
+// above baseline are this optimiser). Returns false when the optimiser's anchors are missing.
+func c03Core(c *Ctx) bool {
 	opt := c.decl(compilerPkg, "Optimizer.OptimizeStatements")
 	kill := c.decl(compilerPkg, "getModifiedVariablesInStmt")
 	if opt == nil || kill == nil {
 		c.ob("C03-R1", compilerPkg+"#optimizer-anchors", token.NoPos, false, "Optimizer.OptimizeStatements / getModifiedVariablesInStmt not found: the invalidation mechanism is absent")
-		return
+		return false
 	}
 	kinds := stmtKindsWithEffects(c)
 	if len(kinds) < 6 {
@@ -466,6 +475,11 @@ func runC03(c *Ctx) {
 		c.undecided("C03-R4: %d integer divisions found in optimizer.go, floor 2", nDiv)
 	}
 
+	return true
+}
+
+// c03Plumbing: R5-R6 (reset before optimising, level plumbing).
+func c03Plumbing(c *Ctx) {
 	// ---- R5 fresh facts per compilation unit
 	c.rule("C03-R5", "MPT: Compiler.Reset re-creates the optimiser's fact maps (assigns a new Optimizer or re-makes all three maps), and every Compile* entry point that calls OptimizeStatements calls Reset first: facts never flow from one compiled unit into the next compiled by the same Compiler")
 	if rs := c.mustFn("C03-R5", compilerPkg, "Compiler.Reset"); rs != nil {
